@@ -49,4 +49,5 @@ func runC11(r *Report) {
 	ruleSentinelForm(r, "pq", "sstables", "memstore", "simpledb", "skiplist")
 	ruleSentinelProducible(r, "pq", "sstables", "memstore", "simpledb")
 	rulePanicNotParked(r)
+	ruleJoin(r)
 }
